@@ -8,7 +8,7 @@ RULE = ("case = (generator type, construction path, jds, sizes, build callbacks,
         "permutations); motif shapes {bare edge, 0, 1, 2, 3, k edges; tuple-of-tuples, list-of-tuples, edges as lists} "
         "x {homogeneous, per-edge names} x the FORM in which the callbacks hand back their results (naming callbacks: tuple / "
         "list / iterator / generator / map / itertools.repeat, a fresh one-shot object per call; build callbacks: as written / "
-        "tuple / list / lists of lists), rotating over two thirds of the exhaustive family and drawn at random for 60% of the "
+        "tuple / list / lists of lists; fast and custom generators also: the single bare edge written as a LIST [u, v], alone or next to list-of-tuples motifs), rotating over two thirds of the exhaustive family and drawn at random for 60% of the "
         "random cases; exhaustive small family (N<=2 with column sums <=3 and N<=3 with sums <=2 in quick; N<=2 sums <=4 and N<=3 sums <=3 in thorough; <=2 topologies/orbits, all permutations, every "
         "builder that accepts the motif size) + seeded random (N<=12, <=4 orbits) + malformed stream; compared: the "
         "three columns entry by entry, callback calls, joint_degrees; a share of the random cases are histories (2-3 "
